@@ -51,11 +51,21 @@ def configs(tier):
         units = out
         units.append(({"producers": list(seqs), "max_ops": 250, "window": 1.0, "fail_at": 1, "fail_cls": "runtime",
                        "line": True, "timer": False, "horizon": 30.0}, {"thread": 1 if quick else 2}, cap))
+    # a failing call while other updates wait in the overflow queue (batch size limit): every caller is released
+    for seqs in (("L", "L"), ("LL",), ("L", "Ls"), ("aL", "L")):
+        for k in (1, 2):
+            out.append(({"producers": list(seqs), "max_ops": 250, "window": 1.0, "fail_at": k, "fail_cls": "runtime",
+                         "horizon": 30.0}, {"thread": 1, "timer": 1, "total": 1} if quick else b2, cap))
     # a paginated checkpoint response: the follow-up page is fetched (or fails to be) before callers are released
     for seqs in (("s",), ("as", "s"), ("s", "s")):
         for sf in (False, True):
             out.append(({"producers": list(seqs), "max_ops": 250, "window": 1.0, "paged_at": 1, "state_fail": sf,
                          "horizon": 30.0}, {"thread": 1, "timer": 1, "total": 1} if quick else b2, cap))
+    # lost wake-ups: <=2 stalls of 250 ms (a runnable thread loses the CPU while the others go on) at signalling / waiting
+    # operations, plus one ordinary preemption
+    for seqs in P2:
+        out.append(({"producers": list(seqs), "max_ops": 250, "window": 1.0, "timer": False, "stall": [0.25],
+                     "stall_ops": ["signal", "wait"]}, {"stall": 2, "thread": 1, "total": 3}, cap))
     if not quick:
         for seqs in P3:
             out.append(({"producers": list(seqs), "max_ops": 2, "window": 1.0},
@@ -74,7 +84,8 @@ def run(ctx):
                      "size limit 400 bytes; window 1.0/0.3 s; all schedules with <=2 (quick) / <=3 (thorough) "
                      "deviations (thread choices + 'timeout fires first'); policies rtb/low/high; three configurations with a failing "
                      "call under line-level preemption in state.py/threading.py; three configurations whose first response is "
-                     "paginated, with the follow-up page fetch succeeding or failing")
+                     "paginated, with the follow-up page fetch succeeding or failing; 11 two-producer configurations with <=2 stalls of "
+                     "250 ms at signalling/waiting operations plus one preemption")
     cov["explanation"] = ("each trace is an execution of the real ExecutionState.create_checkpoint / "
                           "checkpoint_batches_forever against a recording service client")
     return {"coverage": cov, "violations": viols, "internal": internal,
